@@ -609,6 +609,8 @@ def main():
         return None
 
     def feed(steps, part, bound, track=False):
+        if failures and time.time() - t0 > 3 * budget:
+            return  # this tree already has its (replayable) violations: do not spend the full enumeration on it
         k = key_of(steps)
         if k in seen:
             return
